@@ -214,7 +214,8 @@ def _same_comp(got: str, wants: List[str]) -> bool:
 
 def check_protocol(ctx):
     P = ctx.P
-    f = P.fn(REST, "rest_scheduler")
+    from ..util import inline_helpers
+    f = inline_helpers(P, P.fn(REST, "rest_scheduler"))
     ctx.touch(f)
     g = cfg_of(f, subst_env=False)
     env = single_defs(f)
@@ -262,7 +263,10 @@ def check_protocol(ctx):
         le = loop_env(lp)
         fs = g.facts_at(x)
         kv = lp.target.id if isinstance(lp.target, ast.Name) else None
-        succ = any(a[0] == "truth" and a[2] and norm.U(norm.subst(ast.parse(a[1], mode="eval").body, le)) == f"{other}[{kv}].runtime_status().is_pipeline_successful()" for a in fs)
+        pipe_t = f"{other}[{kv}]"
+        if isinstance(lp.target, ast.Tuple) and len(lp.target.elts) == 2 and all(isinstance(e_, ast.Name) for e_ in lp.target.elts) and norm.U(lp.iter) == f"list({other}.items())":
+            kv, pipe_t = lp.target.elts[0].id, lp.target.elts[1].id
+        succ = any(a[0] == "truth" and a[2] and norm.U(norm.subst(ast.parse(a[1], mode="eval").body, le)) == f"{pipe_t}.runtime_status().is_pipeline_successful()" for a in fs)
         key_ok = norm.U(x.targets[0].slice) == kv
         byp = g.path_avoiding(g.node_of(post).id, {g.exit.id}, {g.node_of(lp).id})
         hid = g.node_of(lp).id
